@@ -523,7 +523,7 @@ func (c *Coord) record(caseID string, args json.RawMessage, out CaseOut) {
 	}
 	for _, v := range out.Viol {
 		fv := c.viol[v.Key]
-		if knownFinding(c.findings, c.Spec.ID, v.Key) == nil && os.Getenv("VERIF_NOFAILFAST") == "" && !c.Spec.NoFailFast {
+		if knownFinding(c.findings, c.Spec.ID, v.Key) == nil && os.Getenv("VERIF_NOFAILFAST") == "" && !c.Spec.NoFailFast && !strings.HasPrefix(v.Key, "harness:") {
 			c.stopFlag = true
 		}
 		if fv == nil {
@@ -939,6 +939,7 @@ func TestCoordinator(t *testing.T) {
 	findings := c.findings
 	exit := 0
 	var unstable []string
+	harnessFailed := false
 	var knownHit, reported []string
 	replayDir := filepath.Join(verifRoot(), "replays", id)
 	sort.Strings(c.violOrder)
@@ -950,6 +951,31 @@ func TestCoordinator(t *testing.T) {
 			continue
 		}
 		rf := replayFile{Property: id, Tier: tier, CaseID: fv.CaseID, Args: fv.Args, Key: key, Msg: fv.Msg}
+		if strings.HasPrefix(key, "harness:") {
+			// the harness itself could not set a case up (a port taken, a daemon slow to start, ...): nothing was learned
+			// about the property. Try the case again; only a set-up failure that persists stops the check (as a harness
+			// error, exit 2, never as a violation).
+			persists := true
+			for i := 0; i < 3 && persists; i++ {
+				keys, _ := c.replayOnce(rf)
+				still := false
+				for _, k := range keys {
+					if strings.HasPrefix(k, "harness:") {
+						still = true
+					}
+				}
+				persists = still
+			}
+			if persists {
+				fmt.Printf("HARNESS-ERROR: property=%s %s: %s (case %s)\n", id, key, oneLine(fv.Msg, 300), oneLine(fv.CaseID, 160))
+				harnessFailed = true
+				c.exhaustive = false
+			} else {
+				fmt.Printf("HARNESS-NOTE: %s in case %s did not recur when the case was run again\n", key, oneLine(fv.CaseID, 160))
+				c.notes = append(c.notes, fmt.Sprintf("transient set-up failure %s in %s; the case passed when run again", key, oneLine(fv.CaseID, 120)))
+			}
+			continue
+		}
 		// confirm: the same case must fail with the same key every time
 		confirmed := true
 		if os.Getenv("VERIF_NOCONFIRM") == "" && !strings.HasPrefix(key, "harness:") {
@@ -1068,6 +1094,9 @@ func TestCoordinator(t *testing.T) {
 		id, tier, c.evaluations, c.nontrivial, len(c.outcomes), c.states, c.transitions, len(knownHit), len(reported), c.exhaustive, time.Since(c.start).Seconds())
 	if c.evaluations == 0 {
 		fmt.Println("HARNESS-ERROR: nothing was explored")
+		os.Exit(2)
+	}
+	if harnessFailed && exit == 0 {
 		os.Exit(2)
 	}
 	os.Exit(exit)
